@@ -40,8 +40,9 @@ int gd_get_carray_slice(DIRFILE *D, const char *field_code, unsigned long start,
       entry->field_type != GD_CONST_ENTRY)
   {
     _GD_SetError(D, GD_E_BAD_FIELD_TYPE, GD_E_FIELD_BAD, NULL, 0, field_code);
-  } else if (start + n > ((entry->field_type == GD_CONST_ENTRY) ? 1 :
-      entry->EN(scalar,array_len)))
+  } else if (n > ((entry->field_type == GD_CONST_ENTRY) ? 1 :
+      entry->EN(scalar,array_len)) || start > ((entry->field_type == GD_CONST_ENTRY) ? 1 :
+      entry->EN(scalar,array_len)) - n)
   {
     _GD_SetError(D, GD_E_BOUNDS, 0, NULL, 0, NULL);
   } else if (return_type != GD_NULL &&
@@ -137,8 +138,9 @@ static void _GD_PutCarraySlice(DIRFILE* D, gd_entry_t *E, unsigned long first,
 
   if ((D->flags & GD_ACCMODE) != GD_RDWR)
     _GD_SetError(D, GD_E_ACCMODE, 0, NULL, 0, NULL);
-  else if (first + n > ((E->field_type == GD_CONST_ENTRY) ? 1 :
-        E->EN(scalar,array_len)))
+  else if (n > ((E->field_type == GD_CONST_ENTRY) ? 1 :
+        E->EN(scalar,array_len)) || first > ((E->field_type == GD_CONST_ENTRY) ? 1 :
+        E->EN(scalar,array_len)) - n)
   {
     _GD_SetError(D, GD_E_BOUNDS, 0, NULL, 0, NULL);
   } else if (_GD_BadType(GD_DIRFILE_STANDARDS_VERSION, data_type))
